@@ -358,8 +358,30 @@ fn run(w: &mut World, o: &Op) -> Outcome {
             x.remove_insignificant_whitespace(a[0]);
             ok()
         }
+        "riw2" => {
+            // applying it a second time must change nothing (judged against the single application)
+            x.remove_insignificant_whitespace(a[0]);
+            if !x.is_removed(a[0]) {
+                // (the node itself may have been insignificant white space)
+                x.remove_insignificant_whitespace(a[0]);
+            }
+            ok()
+        }
+        "clone_store" => {
+            // Xot::clone: an independent store in which every existing handle denotes an equal node.
+            // With b the history continues on the clone (and the original becomes the observed twin).
+            let c = w.xot.clone();
+            if o.b {
+                let old = std::mem::replace(&mut w.xot, c);
+                w.twin = Some(Box::new(old));
+            } else {
+                w.twin = Some(Box::new(c));
+            }
+            ok()
+        }
         "cmp" => unit(x.create_missing_prefixes(a[0])),
-        "dedup" => {
+        "dedup" | "dedup2" => {
+            // (for dedup2 the second application is made by step_obs, after the state in between has been projected)
             x.deduplicate_namespaces(a[0]);
             ok()
         }
@@ -384,11 +406,141 @@ fn run(w: &mut World, o: &Op) -> Outcome {
 }
 
 /// Execute one call under catch_unwind and produce the event (without ep/seq, which the caller adds).
+/// serialisation observation of the tree that contains node id (C10 / C15 clauses about serialising before / after)
+fn ser_obs(w: &World, id: usize, whole_tree: bool) -> J {
+    let none = json!({"has": false, "res": "na", "re": "na", "root": 0, "retree": {"n": [], "cons": true, "eo": false, "rs": [], "bad": ""}, "reroot": 0, "text": []});
+    if id == 0 || id > w.handles.len() || w.xot.is_removed(w.h(id)) {
+        return none;
+    }
+    // create_missing_prefixes promises that the node it was called on serialises; deduplicate_namespaces that the
+    // tree still does
+    let root = if whole_tree { w.xot.root(w.h(id)) } else { w.h(id) };
+    if !(w.xot.is_document(root) || w.xot.is_element(root)) {
+        return none;
+    }
+    let rid = w.known(root).unwrap_or(0);
+    let isdoc = w.xot.is_document(root);
+    let wf = isdoc && w.xot.validate_well_formed_document(root).is_ok();
+    let r = catch_unwind(AssertUnwindSafe(|| w.xot.to_string(root)));
+    match r {
+        Err(_) => json!({"has": true, "res": "panic", "re": "na", "root": rid, "retree": none["retree"], "reroot": 0, "text": []}),
+        Ok(Err(_)) => json!({"has": true, "res": "err", "re": "na", "root": rid, "retree": none["retree"], "reroot": 0, "text": []}),
+        Ok(Ok(s)) => {
+            let (re, retree, reroot) = crate::ser::reparse(&s, isdoc && !wf);
+            json!({"has": true, "res": "ok", "re": re, "root": rid, "retree": retree, "reroot": reroot, "text": cps(&s)})
+        }
+    }
+}
+
+/// every accessor of the read-only and of the mutable attribute / namespace view of element h (C11)
+fn views_of(w: &mut World, id: usize, keys: &[(String, String)], pfx: &[String]) -> J {
+    let h = w.h(id);
+    let nkeys: Vec<xot::NameId> = keys.iter().map(|(ns, ln)| { let n = w.xot.add_namespace(ns); w.xot.add_name_ns(ln, n) }).collect();
+    let pids: Vec<xot::PrefixId> = pfx.iter().map(|p| w.xot.add_prefix(p)).collect();
+    let nm = |x: &xot::Xot, n: xot::NameId| { let (l, ns) = x.name_ns_str(n); json!([ns, l]) };
+    let mut hm_a = |v: Vec<(xot::NameId, String)>, x: &xot::Xot| { let mut o: Vec<(String, String, Vec<u32>)> = v.into_iter().map(|(k, v)| { let (l, ns) = x.name_ns_str(k); (ns.to_string(), l.to_string(), cps(&v)) }).collect(); o.sort(); json!(o) };
+    // read-only views
+    let (aro, nro) = {
+        let x = &w.xot;
+        let a = x.attributes(h);
+        let aro = json!({
+            "len": a.len(), "empty": a.is_empty(),
+            "keys": a.keys().map(|k| nm(x, k)).collect::<Vec<_>>(),
+            "vals": a.values().map(|v| cps(v)).collect::<Vec<_>>(),
+            "nodes": a.nodes().map(|n| w.known(n).unwrap_or(0)).collect::<Vec<_>>(),
+            "iter": a.iter().map(|(k, v)| json!([nm(x, k), cps(v)])).collect::<Vec<_>>(),
+            "vec": a.to_vec().into_iter().map(|(k, v)| json!([nm(x, k), cps(&v)])).collect::<Vec<_>>(),
+            "hm": hm_a(a.to_hashmap().into_iter().collect(), x),
+            "get": nkeys.iter().map(|k| json!([a.contains_key(*k), a.get(*k).is_some(), a.get(*k).map(|v| cps(v)).unwrap_or_default(), a.get_node(*k).and_then(|n| w.known(n)).unwrap_or(0)])).collect::<Vec<_>>(),
+        });
+        let n = x.namespaces(h);
+        let pn = |p: xot::PrefixId| json!(["", x.prefix_str(p)]);
+        let mut hm: Vec<(String, String)> = n.to_hashmap().into_iter().map(|(p, u)| (x.prefix_str(p).to_string(), x.namespace_str(u).to_string())).collect();
+        hm.sort();
+        let nro = json!({
+            "len": n.len(), "empty": n.is_empty(),
+            "keys": n.keys().map(pn).collect::<Vec<_>>(),
+            "vals": n.values().map(|u| x.namespace_str(*u)).collect::<Vec<_>>(),
+            "nodes": n.nodes().map(|m| w.known(m).unwrap_or(0)).collect::<Vec<_>>(),
+            "iter": n.iter().map(|(p, u)| json!([pn(p), x.namespace_str(*u)])).collect::<Vec<_>>(),
+            "vec": n.to_vec().into_iter().map(|(p, u)| json!([pn(p), x.namespace_str(u)])).collect::<Vec<_>>(),
+            "hm": hm,
+            "get": pids.iter().map(|p| json!([n.contains_key(*p), n.get(*p).is_some(), n.get(*p).map(|u| x.namespace_str(*u)).unwrap_or(""), n.get_node(*p).and_then(|m| w.known(m)).unwrap_or(0)])).collect::<Vec<_>>(),
+        });
+        (aro, nro)
+    };
+    // mutable views (same accessors through attributes_mut / namespaces_mut)
+    let ids = w.ids.clone();
+    let known = |n: xot::Node| ids.get(&n).copied().unwrap_or(0);
+    let amu = {
+        let a = w.xot.attributes_mut(h);
+        let keys: Vec<xot::NameId> = a.keys().collect();
+        let vals: Vec<Vec<u32>> = a.values().map(|v| cps(v)).collect();
+        let nodes: Vec<usize> = a.nodes().map(known).collect();
+        let iter: Vec<(xot::NameId, Vec<u32>)> = a.iter().map(|(k, v)| (k, cps(v))).collect();
+        let vec: Vec<(xot::NameId, String)> = a.to_vec();
+        let hmv: Vec<(xot::NameId, String)> = a.to_hashmap().into_iter().collect();
+        let get: Vec<(bool, bool, Vec<u32>, usize)> = nkeys.iter().map(|k| (a.contains_key(*k), a.get(*k).is_some(), a.get(*k).map(|v| cps(v)).unwrap_or_default(), a.get_node(*k).map(known).unwrap_or(0))).collect();
+        let (len, empty) = (a.len(), a.is_empty());
+        let x = &w.xot;
+        json!({"len": len, "empty": empty, "keys": keys.iter().map(|k| nm(x, *k)).collect::<Vec<_>>(), "vals": vals, "nodes": nodes,
+               "iter": iter.iter().map(|(k, v)| json!([nm(x, *k), v])).collect::<Vec<_>>(),
+               "vec": vec.iter().map(|(k, v)| json!([nm(x, *k), cps(v)])).collect::<Vec<_>>(),
+               "hm": hm_a(hmv, x), "get": get.iter().map(|g| json!([g.0, g.1, g.2, g.3])).collect::<Vec<_>>()})
+    };
+    let nmu = {
+        let n = w.xot.namespaces_mut(h);
+        let keys: Vec<xot::PrefixId> = n.keys().collect();
+        let vals: Vec<xot::NamespaceId> = n.values().copied().collect();
+        let nodes: Vec<usize> = n.nodes().map(known).collect();
+        let iter: Vec<(xot::PrefixId, xot::NamespaceId)> = n.iter().map(|(p, u)| (p, *u)).collect();
+        let vec = n.to_vec();
+        let hmv: Vec<(xot::PrefixId, xot::NamespaceId)> = n.to_hashmap().into_iter().collect();
+        let get: Vec<(bool, bool, Option<xot::NamespaceId>, usize)> = pids.iter().map(|p| (n.contains_key(*p), n.get(*p).is_some(), n.get(*p).copied(), n.get_node(*p).map(known).unwrap_or(0))).collect();
+        let (len, empty) = (n.len(), n.is_empty());
+        let x = &w.xot;
+        let pn = |p: xot::PrefixId| json!(["", x.prefix_str(p)]);
+        let mut hm: Vec<(String, String)> = hmv.iter().map(|(p, u)| (x.prefix_str(*p).to_string(), x.namespace_str(*u).to_string())).collect();
+        hm.sort();
+        json!({"len": len, "empty": empty, "keys": keys.iter().map(|p| pn(*p)).collect::<Vec<_>>(),
+               "vals": vals.iter().map(|u| x.namespace_str(*u)).collect::<Vec<_>>(), "nodes": nodes,
+               "iter": iter.iter().map(|(p, u)| json!([pn(*p), x.namespace_str(*u)])).collect::<Vec<_>>(),
+               "vec": vec.iter().map(|(p, u)| json!([pn(*p), x.namespace_str(*u)])).collect::<Vec<_>>(),
+               "hm": hm, "get": get.iter().map(|g| json!([g.0, g.1, g.2.map(|u| x.namespace_str(u)).unwrap_or(""), g.3])).collect::<Vec<_>>()})
+    };
+    // what the serialiser writes for this element's start tag: declarations, then attributes, in map order
+    let outs: Vec<J> = w.xot.outputs(h).take_while(|(n, _)| *n == h).filter_map(|(_, o)| match o {
+        xot::output::Output::Prefix(p, u) => Some(json!(["pfx", "", w.xot.prefix_str(p), w.xot.namespace_str(u)])),
+        xot::output::Output::Attribute(n, _) => { let (l, ns) = w.xot.name_ns_str(n); Some(json!(["attr", ns, l, ""])) }
+        _ => None,
+    }).collect();
+    json!({"live": true, "aro": aro, "amu": amu, "nro": nro, "nmu": nmu, "outs": outs})
+}
+
+pub const VIEW_KEYS: [(&str, &str); 5] = [("", "a"), ("", "b"), ("u1", "a"), ("u1", "b"), (XML_NS, "space")];
+pub const VIEW_PFX: [&str; 3] = ["", "p", "q"];
+
 pub fn step(w: &mut World, o: &Op) -> J {
+    step_obs(w, o, false)
+}
+
+pub fn step_obs(w: &mut World, o: &Op, views: bool) -> J {
+    let spre = if o.op == "cmp" || o.op == "dedup" { ser_obs(w, o.a.first().copied().unwrap_or(0), o.op == "dedup") } else { ser_obs(w, 0, true) };
     let out = catch_unwind(AssertUnwindSafe(|| run(w, o)));
-    let (res, retn, rv, has, rvs) = match out {
+    let (mut res, retn, rv, has, rvs) = match out {
         Ok(oc) => (oc.res, oc.ret, oc.rv, oc.has, oc.rvs),
         Err(_) => ("panic", None, vec![], false, String::new()),
+    };
+    // dedup2: project the state after the first application, then apply again
+    let mid = if o.op == "dedup2" && res == "ok" {
+        let m = w.project(None);
+        let h = w.h(o.a[0]);
+        if catch_unwind(AssertUnwindSafe(|| w.xot.deduplicate_namespaces(h))).is_err() {
+            res = "panic";
+        }
+        m
+    } else {
+        json!({"n": [], "cons": w.cons})
     };
     let post = match catch_unwind(AssertUnwindSafe(|| w.project(retn))) {
         Ok(p) => p,
@@ -406,6 +558,25 @@ pub fn step(w: &mut World, o: &Op) -> J {
     m.insert("has".into(), json!(has));
     m.insert("rvs".into(), json!(rvs));
     m.insert("post".into(), post);
+    let spost = if (o.op == "cmp" || o.op == "dedup") && res == "ok" { ser_obs(w, o.a.first().copied().unwrap_or(0), o.op == "dedup") } else { ser_obs(w, 0, true) };
+    m.insert("mid".into(), mid);
+    m.insert("spre".into(), spre);
+    m.insert("spost".into(), spost);
+    let mut vs: Vec<J> = vec![];
+    if views && res != "panic" && !w.corrupt {
+        let keys: Vec<(String, String)> = VIEW_KEYS.iter().map(|(a, b)| (a.to_string(), b.to_string())).collect();
+        let pfx: Vec<String> = VIEW_PFX.iter().map(|p| p.to_string()).collect();
+        for id in 1..=w.handles.len() {
+            let h = w.h(id);
+            if !w.xot.is_removed(h) && w.xot.is_element(h) {
+                let v = catch_unwind(AssertUnwindSafe(|| views_of(w, id, &keys, &pfx)));
+                vs.push(v.unwrap_or(json!({"live": true, "panic": true})));
+            } else {
+                vs.push(json!({"live": false}));
+            }
+        }
+    }
+    m.insert("views".into(), J::Array(vs));
     ev
 }
 
@@ -475,6 +646,60 @@ pub fn random_op(w: &World, r: &mut Rng, profile: &str) -> Op {
     }
     let a0 = pick_node(r);
     let a1 = pick_node(r);
+    let elems: Vec<usize> = live.iter().copied().filter(|i| w.xot.is_element(w.h(*i))).collect();
+    if profile == "ns" && !elems.is_empty() && r.chance(1, 2) {
+        let e = *r.pick(&elems);
+        let uris = ["u1", "u2", "u3", "u4"];
+        return match r.below(12) {
+            0 | 1 => Op::new("cmp", &[if r.chance(1, 2) { e } else { a0 }]),
+            2 => Op::new("dedup", &[if r.chance(1, 2) { e } else { a0 }]),
+            3 => Op::new("dedup2", &[if r.chance(1, 2) { e } else { a0 }]),
+            4 => Op::new("set_element_name", &[e]).name(pk(r, &uris), pk(r, &LNS)),
+            5 => Op::new("set_attribute", &[e]).name(pk(r, &uris), pk(r, &LNS)).s("v"),
+            6 => Op::new("set_namespace", &[e]).pxuri(pk(r, &["", "p", "q", "n0", "n1"]), pk(r, &["", "u1", "u2", "u3"])),
+            7 => Op::new("remove_namespace", &[e]).pxuri(pk(r, &["", "p", "q", "n0"]), ""),
+            8 => Op::new("append_element", &[e]).name(pk(r, &uris), pk(r, &LNS)),
+            9 => Op::new("clone_node", &[e]),
+            10 => Op::new("clone_with_prefixes", &[e]),
+            _ => Op::new("append", &[e, a1]),
+        };
+    }
+    if profile == "maps" && !elems.is_empty() && r.chance(3, 5) {
+        // fall into the map family below
+        let e = *r.pick(&elems);
+        let val = rand_text(r, false);
+        let (ns, ln) = rand_name(r);
+        let attrs: Vec<usize> = live.iter().copied().filter(|i| w.xot.is_attribute_node(w.h(*i)) || w.xot.is_namespace_node(w.h(*i))).collect();
+        return match r.below(26) {
+            0 => Op::new("set_attribute", &[e]).name(&ns, &ln).s(&val),
+            1 => Op::new("remove_attribute", &[e]).name(&ns, &ln),
+            2 => Op::new("attr_insert", &[e]).name(&ns, &ln).s(&val),
+            3 => Op::new("attr_remove", &[e]).name(&ns, &ln),
+            4 => Op::new("attr_clear", &[e]),
+            5 => Op::new("attr_get_mut", &[e]).name(&ns, &ln).s(&val),
+            6 => Op::new("attr_entry_or_insert", &[e]).name(&ns, &ln).s(&val),
+            7 => Op::new("attr_entry_or_insert_with", &[e]).name(&ns, &ln).s(&val),
+            8 => Op::new("attr_entry_or_default", &[e]).name(&ns, &ln),
+            9 => Op::new("attr_entry_and_modify_or_insert", &[e]).name(&ns, &ln).s(&val),
+            10 => Op::new("attr_entry_occupied_insert", &[e]).name(&ns, &ln).s(&val),
+            11 => Op::new("attr_entry_occupied_remove", &[e]).name(&ns, &ln),
+            12 => Op::new("attr_entry_vacant_insert", &[e]).name(&ns, &ln).s(&val),
+            13 => Op::new("set_namespace", &[e]).pxuri(pk(r, &PXS), pk(r, &NSS)),
+            14 => Op::new("remove_namespace", &[e]).pxuri(pk(r, &PXS), ""),
+            15 => Op::new("ns_insert", &[e]).pxuri(pk(r, &PXS), pk(r, &NSS)),
+            16 => Op::new("ns_remove", &[e]).pxuri(pk(r, &PXS), ""),
+            17 => Op::new("ns_clear", &[e]),
+            18 => Op::new("ns_get_mut", &[e]).pxuri(pk(r, &PXS), pk(r, &NSS)),
+            19 => Op::new("ns_entry_or_insert", &[e]).pxuri(pk(r, &PXS), pk(r, &NSS)),
+            20 => Op::new("ns_entry_occupied_remove", &[e]).pxuri(pk(r, &PXS), ""),
+            21 => Op::new("new_attribute_node", &[]).name(&ns, &ln).s(&val),
+            22 => Op::new("new_namespace_node", &[]).pxuri(pk(r, &PXS), pk(r, &NSS)),
+            23 if !attrs.is_empty() => Op::new("any_append", &[e, *r.pick(&attrs)]),
+            24 if !attrs.is_empty() => Op::new(*r.pick(&["detach", "remove"]), &[*r.pick(&attrs)]),
+            _ if !attrs.is_empty() => Op::new(*r.pick(&["append_attribute_node", "append_namespace_node"]), &[e, *r.pick(&attrs)]),
+            _ => Op::new("attr_insert", &[e]).name(&ns, &ln).s(&val),
+        };
+    }
     if roll < 50 {
         let op = *r.pick(&NODE2_OPS);
         return Op::new(op, &[a0, a1]);
@@ -536,7 +761,13 @@ pub fn random_op(w: &World, r: &mut Rng, profile: &str) -> Op {
         };
     }
     if roll < 98 {
-        return Op::new("cmp", &[a0]);
+        return match (profile, r.below(6)) {
+            ("clone", 0) | ("clone", 1) => Op::new("clone_store", &[]).b(false),
+            ("clone", 2) | ("clone", 3) => Op::new("clone_store", &[]).b(true),
+            ("ws", 0) | ("ws", 1) | ("ws", 2) => Op::new("riw2", &[a0]),
+            (_, 5) => Op::new("dedup", &[a0]),
+            _ => Op::new("cmp", &[a0]),
+        };
     }
     if profile == "nocons" || r.chance(1, 3) {
         return Op::new("set_cons", &[]).b(r.chance(1, 2));
